@@ -278,7 +278,8 @@ class C11(Check):
                 for rank in b["single_ranks"]:
                     for form, modes in forms:
                         for rot in rotations(name):
-                            apis = ["fn", "class"] if iters == [2, 5] else ["fn"]
+                            # (class wrapper and the einsum tensor-algebra backend: second implementations, one budget each)
+                            apis = ["fn", "class", "fn-einsum"] if iters == [2, 5] else ["fn"]
                             for api in apis:
                                 yield {"kind": "single", "shape": shape, "data": group["data"], "rank": rank, "init": group["init"],
                                        "iters": iters, "api": api, "spec": [[name, form, modes, rot]], "seed": seed}
@@ -340,6 +341,10 @@ class C11(Check):
                 if case.get("api", "fn") == "class":
                     res = ConstrainedCP(rank, n_iter_max=case["iters"][0], n_iter_max_inner=case["iters"][1], init=case["init"],
                                         random_state=0, **kwargs).fit_transform(T)
+                elif case.get("api") == "fn-einsum":
+                    with tl.tenalg.backend_context("einsum", local_threadsafe=True):
+                        res = constrained_parafac(T, rank, n_iter_max=case["iters"][0], n_iter_max_inner=case["iters"][1],
+                                                  init=case["init"], random_state=0, **kwargs)
                 else:
                     res = constrained_parafac(T, rank, n_iter_max=case["iters"][0], n_iter_max_inner=case["iters"][1],
                                               init=case["init"], random_state=0, **kwargs)
